@@ -344,7 +344,14 @@ class DataFrameSchemaBackend(PolarsSchemaBackend):
                 )
                 for k, v in missing_cols_schema.items()
             }
-        ).cast({k: v.dtype.type for k, v in missing_cols_schema.items()})
+        ).cast(
+            {
+                k: v.dtype.type
+                for k, v in missing_cols_schema.items()
+                # no declared data type: the default value as it is
+                if v.dtype is not None
+            }
+        )
 
         # Set column order: declared columns in schema order, followed by the
         # columns that the schema doesn't declare
